@@ -583,7 +583,9 @@ def run(ctx):
     check_interval_discipline(ctx, f)
 
     # ---- C03.e issuance / limit results ------------------------------------------------------
-    K.check_verify_issued(ctx, f)
+    # (shared with C01: the textual rule first, then the path-by-path decision of props/C01.py)
+    from props.C01 import check_verify_issued as _check_verify_issued
+    _check_verify_issued(ctx, f)
     check_apply_to(ctx, f)
     check_resource_set(ctx, f)
 
